@@ -1,15 +1,22 @@
-//! Implementation side of C02: applies one action to the REAL linfa dataset (owned value or
-//! `.view()` of it) through the public API and observes everything it returns.
+//! Implementation side of C02: builds the REAL linfa dataset of a model state (element type of the
+//! targets and memory layout of every container as the state says), applies one action to the owned
+//! value or to `.view()` of it through the public API and observes everything it returns.
+//!
+//! The code is stamped out per target element type by macros (duck-typed against linfa's inherent
+//! methods): usize / bool / &'static str are `Label + Copy` (whole alphabet), i64 is `Copy` but no
+//! `Label` (no with_labels / one_vs_all / CountedTargets), String is a `Label` but not `Copy` (only
+//! the operations linfa defines without `E: Copy`).
 
 use crate::model::*;
-use linfa::dataset::Records;
+use linfa::dataset::{AsTargets, CountedTargets, Records};
 use linfa::DatasetBase;
+use ndarray::Array1;
 
 #[derive(Default)]
 pub struct ImplOut {
     /// every dataset the operation returned, in order
     pub outs: Vec<Obs>,
-    /// one_vs_all: the label that came with each returned view
+    /// one_vs_all: the label (code) that came with each returned view
     pub ova_labels: Vec<usize>,
     /// sample_iter: the yielded (record row, target row) pairs
     pub pairs: Vec<(Vec<f64>, Vec<usize>)>,
@@ -17,15 +24,40 @@ pub struct ImplOut {
     pub rng_exact: Option<bool>,
 }
 
-/// Operations available on every dataset kind (receiver: a reference to an owned dataset or to a view).
+/// Trusted base: the plain constructors.
+fn finish<R: Records, T: AsTargets>(ds: DatasetBase<R, T>, w: Array1<f32>, m: &Model) -> DatasetBase<R, T> {
+    ds.with_weights(w).with_feature_names(m.fnames.clone()).with_target_names(m.tnames.clone())
+}
+
+fn weights_of(m: &Model) -> Array1<f32> {
+    match &m.w {
+        Some(w) => lay1(w, m.lw, POISON_WEIGHT),
+        None => Array1::zeros(0),
+    }
+}
+
+macro_rules! with_labels_arm {
+    (labels, $ds:expr, $labels:expr, $o:expr, $L:ty, $act:expr) => {{
+        let ls: Vec<$L> = $labels.iter().map(|&c| <$L as Lab>::enc(c)).collect();
+        let r = $ds.with_labels(&ls);
+        $o.outs.push(observe(&r));
+    }};
+    (nolabels, $ds:expr, $labels:expr, $o:expr, $L:ty, $act:expr) => {{
+        let _ = $labels;
+        return Err(format!("action {:?} needs a label type", $act));
+    }};
+}
+
+/// Operations available on every dataset kind with `Copy` target elements (receiver: a reference
+/// to an owned dataset or to a view).
 macro_rules! ops_any {
-    ($ds:expr, $act:expr, $o:expr) => {{
+    ($ds:expr, $act:expr, $o:expr, $L:ty, $obs:ident, $wl:tt) => {{
         let ds = $ds;
         match $act {
             Act::Shuffle { script, .. } => {
                 let mut rng = ScriptRng::new(shuffle_draws(ds.nsamples(), script));
                 let r = ds.shuffle(&mut rng);
-                $o.outs.push(observe(&r));
+                $o.outs.push($obs(&r));
                 $o.rng_exact = Some(rng.exact());
             }
             Act::BootSamples { m, items, script, .. } => {
@@ -35,7 +67,7 @@ macro_rules! ops_any {
                     let mut it = ds.bootstrap_samples(*m, &mut rng);
                     for _ in 0..*items {
                         let r = it.next().unwrap();
-                        $o.outs.push(observe(&r));
+                        $o.outs.push($obs(&r));
                     }
                 }
                 $o.rng_exact = Some(rng.exact());
@@ -47,7 +79,7 @@ macro_rules! ops_any {
                     let mut it = ds.bootstrap_features(*q, &mut rng);
                     for _ in 0..*items {
                         let r = it.next().unwrap();
-                        $o.outs.push(observe(&r));
+                        $o.outs.push($obs(&r));
                     }
                 }
                 $o.rng_exact = Some(rng.exact());
@@ -58,51 +90,48 @@ macro_rules! ops_any {
                 {
                     let mut it = ds.bootstrap((*m, *q), &mut rng);
                     let r = it.next().unwrap();
-                    $o.outs.push(observe(&r));
+                    $o.outs.push($obs(&r));
                 }
                 $o.rng_exact = Some(rng.exact());
             }
-            Act::WithLabels { labels, .. } => {
-                let r = ds.with_labels(labels);
-                $o.outs.push(observe(&r));
-            }
+            Act::WithLabels { labels, .. } => with_labels_arm!($wl, ds, labels, $o, $L, $act),
             Act::MapTargets { .. } => {
-                let r = ds.clone().map_targets(|x| *x + 1);
-                $o.outs.push(observe(&r));
+                let r = ds.clone().map_targets(|x| <$L as Lab>::bump(x));
+                $o.outs.push($obs(&r));
             }
             Act::ToOwned { .. } => {
                 let r = DatasetBase::to_owned(ds);
-                $o.outs.push(observe(&r));
+                $o.outs.push($obs(&r));
             }
             Act::View => {
                 let r = ds.view();
-                $o.outs.push(observe(&r));
+                $o.outs.push($obs(&r));
             }
             Act::SplitView { r } => {
                 let v = ds.view();
                 let (a, b) = v.split_with_ratio(RATIOS[*r]);
-                $o.outs.push(observe(&a));
-                $o.outs.push(observe(&b));
+                $o.outs.push($obs(&a));
+                $o.outs.push($obs(&b));
             }
             Act::Chunks { c, .. } => {
                 for chunk in ds.sample_chunks(*c) {
-                    $o.outs.push(observe(&chunk));
+                    $o.outs.push($obs(&chunk));
                 }
             }
             Act::SampleIter { .. } => {
                 for (x, y) in ds.sample_iter() {
-                    $o.pairs.push((x.iter().cloned().collect(), y.iter().cloned().collect()));
+                    $o.pairs.push((x.iter().cloned().collect(), y.iter().map(|l| l.code()).collect()));
                 }
             }
             Act::FeatureIter { .. } => {
                 for v in ds.feature_iter() {
-                    $o.outs.push(observe(&v));
+                    $o.outs.push($obs(&v));
                 }
             }
             Act::Fold { k, .. } => {
                 for (train, val) in ds.fold(*k) {
-                    $o.outs.push(observe(&train));
-                    $o.outs.push(observe(&val));
+                    $o.outs.push($obs(&train));
+                    $o.outs.push($obs(&val));
                 }
             }
             _ => return Err(format!("action {:?} is not applicable to this dataset kind", $act)),
@@ -110,8 +139,7 @@ macro_rules! ops_any {
     }};
 }
 
-/// One-dimensional targets only.
-macro_rules! ops_single {
+macro_rules! one_vs_all_on {
     ($ds:expr, $o:expr) => {{
         let ds = $ds;
         match ds.one_vs_all() {
@@ -119,9 +147,9 @@ macro_rules! ops_single {
                 // the order of the returned list follows a HashSet (different on every call); it is
                 // not part of the property, so the results are put into label order here
                 let mut order: Vec<usize> = (0..list.len()).collect();
-                order.sort_by_key(|&i| list[i].0);
+                order.sort_by_key(|&i| list[i].0.code());
                 for i in order {
-                    $o.ova_labels.push(list[i].0);
+                    $o.ova_labels.push(list[i].0.code());
                     $o.outs.push(observe(&list[i].1));
                 }
             }
@@ -130,89 +158,277 @@ macro_rules! ops_single {
     }};
 }
 
-/// Two-dimensional targets only.
-macro_rules! ops_multi {
-    ($ds:expr, $o:expr) => {{
-        let ds = $ds;
-        for v in ds.target_iter() {
-            $o.outs.push(observe(&v));
+macro_rules! ova_arm {
+    (one, labels, $d:ident, $view:expr, $o:expr, $act:expr) => {{
+        if $view {
+            let v = $d.view();
+            one_vs_all_on!(&v, $o)
+        } else {
+            one_vs_all_on!(&$d, $o)
         }
+    }};
+    ($dim:tt, $wl:tt, $d:ident, $view:expr, $o:expr, $act:expr) => {{
+        let _ = ($view, &$d);
+        return Err(format!("action {:?} needs one-dimensional label targets", $act));
     }};
 }
 
-macro_rules! dispatch {
-    ($d:expr, $act:expr, $o:expr, $single:tt) => {{
-        let d = $d;
-        let view = $act.on_view() && !matches!($act, Act::View | Act::SplitView { .. });
-        match $act {
-            Act::OneVsAll { .. } => {
-                dispatch!(@single $single, d, view, $o, $act)
-            }
-            Act::TargetIter { .. } => {
-                dispatch!(@multi $single, d, view, $o, $act)
-            }
-            _ => {
-                if view {
-                    let v = d.view();
-                    ops_any!(&v, $act, $o)
-                } else {
-                    ops_any!(&d, $act, $o)
-                }
-            }
-        }
-    }};
-    (@single true, $d:ident, $view:ident, $o:expr, $act:expr) => {{
+macro_rules! titer_arm {
+    (two, $d:ident, $view:expr, $o:expr, $obs:ident, $act:expr) => {{
         if $view {
             let v = $d.view();
-            ops_single!(&v, $o)
+            for x in v.target_iter() {
+                $o.outs.push($obs(&x));
+            }
         } else {
-            ops_single!(&$d, $o)
+            for x in $d.target_iter() {
+                $o.outs.push($obs(&x));
+            }
         }
     }};
-    (@single false, $d:ident, $view:ident, $o:expr, $act:expr) => {{
-        let _ = $view;
-        return Err(format!("action {:?} needs one-dimensional targets", $act));
-    }};
-    (@multi false, $d:ident, $view:ident, $o:expr, $act:expr) => {{
-        if $view {
-            let v = $d.view();
-            ops_multi!(&v, $o)
-        } else {
-            ops_multi!(&$d, $o)
-        }
-    }};
-    (@multi true, $d:ident, $view:ident, $o:expr, $act:expr) => {{
-        let _ = $view;
+    (one, $d:ident, $view:expr, $o:expr, $obs:ident, $act:expr) => {{
+        let _ = ($view, &$d);
         return Err(format!("action {:?} needs two-dimensional targets", $act));
     }};
 }
 
-/// Runs the action on the real dataset. `Err` = the harness asked for something inapplicable
-/// (machinery error); panics of linfa propagate to the caller's `guarded`.
-pub fn run_impl(live: Live, act: &Act) -> Result<ImplOut, String> {
-    let mut o = ImplOut::default();
-    match (live, act) {
-        (Live::P1(d), Act::SplitOwned { r }) => {
-            let (a, b) = d.split_with_ratio(RATIOS[*r]);
-            o.outs.push(observe(&a));
-            o.outs.push(observe(&b));
+macro_rules! split_owned_arm {
+    (plain, $d:ident, $r:expr, $o:expr, $obs:ident, $act:expr) => {{
+        let (a, b) = $d.split_with_ratio(RATIOS[*$r]);
+        $o.outs.push($obs(&a));
+        $o.outs.push($obs(&b));
+    }};
+    (counted, $d:ident, $r:expr, $o:expr, $obs:ident, $act:expr) => {{
+        let _ = ($r, &$d);
+        return Err(format!("action {:?} is only defined for plain owned datasets", $act));
+    }};
+}
+
+macro_rules! single_target_arm {
+    (plain, two, $d:ident, $o:expr, $obs:ident, $act:expr) => {{
+        let r = $d.into_single_target();
+        $o.outs.push($obs(&r));
+    }};
+    ($plain:tt, $dim:tt, $d:ident, $o:expr, $obs:ident, $act:expr) => {{
+        let _ = &$d;
+        return Err(format!("action {:?} is only defined for plain owned datasets with 2-d targets", $act));
+    }};
+}
+
+macro_rules! run_kind {
+    ($d:expr, $act:expr, $o:expr, $L:ty, $obs:ident, $wl:tt, $dim:tt, $plain:tt) => {{
+        let d = $d;
+        match $act {
+            Act::SplitOwned { r } => split_owned_arm!($plain, d, r, $o, $obs, $act),
+            Act::IntoSingleTarget => single_target_arm!($plain, $dim, d, $o, $obs, $act),
+            Act::OneVsAll { view } => ova_arm!($dim, $wl, d, *view, $o, $act),
+            Act::TargetIter { view } => titer_arm!($dim, d, *view, $o, $obs, $act),
+            _ => {
+                let view = $act.on_view() && !matches!($act, Act::View | Act::SplitView { .. });
+                if view {
+                    let v = d.view();
+                    ops_any!(&v, $act, $o, $L, $obs, $wl)
+                } else {
+                    ops_any!(&d, $act, $o, $L, $obs, $wl)
+                }
+            }
         }
-        (Live::P2(d), Act::SplitOwned { r }) => {
-            let (a, b) = d.split_with_ratio(RATIOS[*r]);
-            o.outs.push(observe(&a));
-            o.outs.push(observe(&b));
+    }};
+}
+
+macro_rules! counted_kinds {
+    (labels, $m:expr, $act:expr, $o:expr, $L:ty, $records:expr, $rows:expr, $w:expr) => {{
+        if $m.t2 {
+            let t = lay2(&$rows, $m.nt, $m.lt, &|_| <$L as Lab>::enc(POISON_LABEL));
+            let d = finish(DatasetBase::new($records, CountedTargets::new(t)), $w, $m);
+            run_kind!(d, $act, $o, $L, observe, labels, two, counted)
+        } else {
+            let flat: Vec<$L> = $rows.iter().map(|r| r[0].clone()).collect();
+            let t = lay1(&flat, $m.lt, <$L as Lab>::enc(POISON_LABEL));
+            let d = finish(DatasetBase::new($records, CountedTargets::new(t)), $w, $m);
+            run_kind!(d, $act, $o, $L, observe, labels, one, counted)
         }
-        (Live::P2(d), Act::IntoSingleTarget) => {
-            let r = d.into_single_target();
-            o.outs.push(observe(&r));
+    }};
+    (nolabels, $m:expr, $act:expr, $o:expr, $L:ty, $records:expr, $rows:expr, $w:expr) => {{
+        let _ = ($records, $w);
+        return Err("CountedTargets needs a label type".to_string());
+    }};
+}
+
+/// Whole alphabet for one `Copy` element type.
+macro_rules! typed_copy {
+    ($modname:ident, $L:ty, $obs:ident, $wl:tt) => {
+        pub mod $modname {
+            use super::*;
+            pub fn run(m: &Model, act: &Act) -> Result<ImplOut, String> {
+                let mut o = ImplOut::default();
+                let records = lay2(&m.rec, m.nf, m.lr, &poison_tag);
+                let w = weights_of(m);
+                let rows: Vec<Vec<$L>> = m.tgt.iter().map(|r| r.iter().map(|&c| <$L as Lab>::enc(c)).collect()).collect();
+                if m.counted {
+                    counted_kinds!($wl, m, act, o, $L, records, rows, w)
+                } else if m.t2 {
+                    let t = lay2(&rows, m.nt, m.lt, &|_| <$L as Lab>::enc(POISON_LABEL));
+                    let d = finish(DatasetBase::new(records, t), w, m);
+                    run_kind!(d, act, o, $L, $obs, $wl, two, plain)
+                } else {
+                    let flat: Vec<$L> = rows.iter().map(|r| r[0].clone()).collect();
+                    let t = lay1(&flat, m.lt, <$L as Lab>::enc(POISON_LABEL));
+                    let d = finish(DatasetBase::new(records, t), w, m);
+                    run_kind!(d, act, o, $L, $obs, $wl, one, plain)
+                }
+                Ok(o)
+            }
         }
-        (_, Act::SplitOwned { .. }) | (_, Act::IntoSingleTarget) => {
-            return Err(format!("action {:?} is only defined for plain owned datasets", act));
-        }
-        (Live::P1(d), act) => dispatch!(d, act, o, true),
-        (Live::C1(d), act) => dispatch!(d, act, o, true),
-        (Live::P2(d), act) => dispatch!(d, act, o, false),
-        (Live::C2(d), act) => dispatch!(d, act, o, false),
+    };
+}
+
+typed_copy!(t_usize, usize, observe, labels);
+typed_copy!(t_bool, bool, observe, labels);
+typed_copy!(t_str, &'static str, observe, labels);
+typed_copy!(t_i64, i64, observe_plain, nolabels);
+
+/// String targets (a `Label`, not `Copy`): the operations linfa defines without `E: Copy`.
+pub mod t_string {
+    use super::*;
+
+    macro_rules! ref_ops {
+        ($ds:expr, $act:expr, $o:expr) => {{
+            let ds = $ds;
+            match $act {
+                Act::View => {
+                    let r = ds.view();
+                    $o.outs.push(observe(&r));
+                }
+                Act::SplitView { r } => {
+                    let v = ds.view();
+                    let (a, b) = v.split_with_ratio(RATIOS[*r]);
+                    $o.outs.push(observe(&a));
+                    $o.outs.push(observe(&b));
+                }
+                Act::MapTargets { .. } => {
+                    let r = ds.clone().map_targets(|x| x.bump());
+                    $o.outs.push(observe(&r));
+                }
+                Act::SampleIter { .. } => {
+                    for (x, y) in ds.sample_iter() {
+                        $o.pairs.push((x.iter().cloned().collect(), y.iter().map(|l| l.code()).collect()));
+                    }
+                }
+                Act::FeatureIter { .. } => {
+                    for v in ds.feature_iter() {
+                        $o.outs.push(observe(&v));
+                    }
+                }
+                _ => return Err(format!("action {:?} is not defined for String targets", $act)),
+            }
+        }};
     }
-    Ok(o)
+
+    pub fn run(m: &Model, act: &Act) -> Result<ImplOut, String> {
+        let mut o = ImplOut::default();
+        if m.counted {
+            return Err("counted String targets are not part of the alphabet".to_string());
+        }
+        let records = lay2(&m.rec, m.nf, m.lr, &poison_tag);
+        let w = weights_of(m);
+        let rows: Vec<Vec<String>> = m.tgt.iter().map(|r| r.iter().map(|&c| String::enc(c)).collect()).collect();
+        let view = act.on_view() && !matches!(act, Act::View | Act::SplitView { .. });
+        if m.t2 {
+            let t = lay2(&rows, m.nt, m.lt, &|_| String::enc(POISON_LABEL));
+            let d = finish(DatasetBase::new(records, t), w, m);
+            match act {
+                Act::SplitOwned { r } => {
+                    let (a, b) = d.split_with_ratio(RATIOS[*r]);
+                    o.outs.push(observe(&a));
+                    o.outs.push(observe(&b));
+                }
+                Act::IntoSingleTarget => {
+                    let r = d.into_single_target();
+                    o.outs.push(observe(&r));
+                }
+                Act::TargetIter { .. } => {
+                    if view {
+                        let v = d.view();
+                        for x in v.target_iter() {
+                            o.outs.push(observe(&x));
+                        }
+                    } else {
+                        for x in d.target_iter() {
+                            o.outs.push(observe(&x));
+                        }
+                    }
+                }
+                _ => {
+                    if view {
+                        let v = d.view();
+                        ref_ops!(&v, act, o)
+                    } else {
+                        ref_ops!(&d, act, o)
+                    }
+                }
+            }
+        } else {
+            let flat: Vec<String> = rows.iter().map(|r| r[0].clone()).collect();
+            let t = lay1(&flat, m.lt, String::enc(POISON_LABEL));
+            let d = finish(DatasetBase::new(records, t), w, m);
+            match act {
+                Act::SplitOwned { r } => {
+                    let (a, b) = d.split_with_ratio(RATIOS[*r]);
+                    o.outs.push(observe(&a));
+                    o.outs.push(observe(&b));
+                }
+                Act::OneVsAll { .. } => {
+                    if view {
+                        let v = d.view();
+                        one_vs_all_on!(&v, o)
+                    } else {
+                        one_vs_all_on!(&d, o)
+                    }
+                }
+                _ => {
+                    if view {
+                        let v = d.view();
+                        ref_ops!(&v, act, o)
+                    } else {
+                        ref_ops!(&d, act, o)
+                    }
+                }
+            }
+        }
+        Ok(o)
+    }
+}
+
+/// Builds the real dataset of `m` and runs the action on it. `Err` = the harness asked for something
+/// inapplicable (machinery error); panics of linfa propagate to the caller's `guarded`.
+pub fn run_impl(m: &Model, act: &Act) -> Result<ImplOut, String> {
+    match m.ltype.as_str() {
+        "usize" => t_usize::run(m, act),
+        "bool" => t_bool::run(m, act),
+        "str" => t_str::run(m, act),
+        "i64" => t_i64::run(m, act),
+        "string" => t_string::run(m, act),
+        other => Err(format!("unknown target element type {}", other)),
+    }
+}
+
+/// Which actions exist for a target element type.
+pub fn applicable(ltype: &str, act: &Act) -> bool {
+    match ltype {
+        "usize" | "str" => true,
+        // map_targets(+1) has no meaning on a two-valued type (covered by the other types)
+        // and the label alphabet of a bool dataset is {0, 1}
+        "bool" => match act {
+            Act::MapTargets { .. } => false,
+            Act::WithLabels { labels, .. } => labels.iter().all(|&l| l < 2),
+            _ => true,
+        },
+        "i64" => !matches!(act, Act::WithLabels { .. } | Act::OneVsAll { .. }),
+        "string" => matches!(
+            act,
+            Act::SplitOwned { .. } | Act::SplitView { .. } | Act::View | Act::OneVsAll { .. } | Act::MapTargets { .. } | Act::SampleIter { .. } | Act::TargetIter { .. } | Act::FeatureIter { .. } | Act::IntoSingleTarget
+        ),
+        _ => false,
+    }
 }
